@@ -1,7 +1,7 @@
 From Coq Require Import ZArith.
-From GD Require Import C07.Token C07.Number C07.Entry.
+From GD Require Import C07.Token C07.Number C07.Entry C07.Fragment.
 Require Import ExtrOcamlBasic.
 Extraction Language OCaml.
 Extraction "model.ml" print_entry print_hidden print_alias parse_line parse_spec rctx_of tokenise escape
   print_g print_Z stableb tok_to_num strtod_model looks_numeric two64 Z.add Z.mul Z.sub Z.opp Z.ltb Z.eqb Z.div_eucl dbl_is_nan
-  entry_items items_toks.
+  entry_items items_toks print_header parse_header initial_state include_items items_text parse_include.
